@@ -319,6 +319,7 @@ def log_prob_epilogue(ctx):
     it.lib.overrides["jax.numpy.asarray"] = lambda a, *r, **k: ("asarray", a, k.get("dtype"))
     it.lib.overrides["jax.numpy.isnan"] = lambda a: ("isnan", a)
     it.lib.overrides["jax.numpy.where"] = lambda c, a, b: ("where", c, a, b)
+    it.lib.overrides["jax.numpy.nan_to_num"] = lambda a, *r, **k: ("nan_to_num", a, r, tuple(sorted(k)))
     it.global_overrides[MOD] = {"unwrap": lambda d: ("unwrapped", d)}
     for cname, cs in (("conditional", ("c",)), ("unconditional", None)):
         lps = Ext("lps")
@@ -348,3 +349,166 @@ def log_prob_epilogue(ctx):
         fl = it.builtins["float"]
         okc = a is not None and a[0] == ("asarray", "x", fl) and ((a[1] == ("asarray", "cond", fl)) if cs is not None else (a[1] == "cond"))
         ctx.oblige(f"C05/AbstractDistribution.log_prob[{cname}]/post/vectorised_log_prob_of_unwrapped_self", bool(okc) and rec.get("method") == "the _log_prob method", [], props, kind="struct", fn=fnq)
+
+
+# ======================================================================================
+# C06: batching glue.  jnp.vectorize itself is a T3 dependency (gufunc semantics for a signature and an excluded set).
+from fjvc.values import SymTuple, IntSeq  # noqa: E402
+from .datafit import KEY as PKEY, child, key_facts  # noqa: E402
+
+PROD = z3.Function("prod", IntSeq, z3.IntSort())
+
+
+class KeyArr:
+    """an array of PRNG keys in flat (row-major) order: flat_at(i) is the key of flat position i"""
+
+    def __init__(self, total, flat_at, shape=None):
+        self.total, self.flat_at, self.shape = total, flat_at, shape
+
+
+@family("distributions/_get_sample_keys", ["C06"])
+def get_sample_keys(ctx):
+    it = ctx.interp
+    props = ["C06"]
+    fnq = f"{MOD}.AbstractDistribution._get_sample_keys"
+    cls = it.repo_class(f"{MOD}.AbstractDistribution")
+    ss, cshape, cs = (z3.Const(n_, IntSeq) for n_ in ("sample_shape", "condition_shape", "cond_shape"))
+    key = z3.Const("key", PKEY)
+    rec = {}
+
+    def split(k, n=2):
+        nn = lift(n)
+        rec["split"] = (k, nn)
+        return KeyArr(nn, lambda i, k=k, nn=nn: child(k, nn, i), None)
+
+    def reshape(a, shape):
+        rec["reshape"] = shape
+        return KeyArr(a.total, a.flat_at, shape)  # reshape keeps the flat order
+
+    def prod(t):
+        return SV(PROD(SymTuple.of(t).s))
+
+    def filter_vmap(f, **kw):
+        def mapped(keys):
+            inner0 = f(("elem", keys, z3.Int("i!outer")))
+            n_in = inner0.total
+            return KeyArr(keys.total * n_in, lambda i: f(("elem", keys, i / n_in)).flat_at(i % n_in), None)
+        return mapped
+
+    it.lib.overrides.update({"jax.random.split": lambda k, n=2: split(k[1].flat_at(k[2]) if isinstance(k, tuple) else k, n), "jax.numpy.reshape": reshape, "math.prod": prod, "equinox.filter_vmap": filter_vmap})
+
+    class Cond:
+        shape = SymTuple(cshape)
+
+    pos = lambda s_: z3.ForAll([z3.Int("q!b")], z3.Implies(z3.And(z3.Int("q!b") >= 0, z3.Int("q!b") < z3.Length(s_)), s_[z3.Int("q!b")] >= 1))  # noqa: E731
+    for cname, self, cond in (("conditional", Obj(cls, shape=("e",), cond_shape=SymTuple(cs)), Cond()), ("unconditional", Obj(cls, shape=("e",), cond_shape=None), None)):
+        rc, rcs = z3.Length(cshape), z3.Length(cs)
+
+        def run(self=self, cond=cond):
+            it.ctx_simplify = True
+            try:
+                if cond is not None:
+                    it.assume(rc >= rcs)  # requires: the condition has at least the distribution's cond_shape as trailing dims
+                return method(cls, "_get_sample_keys")(self, key, SymTuple(ss), cond)
+            finally:
+                it.ctx_simplify = False
+
+        paths = it.explore(run)
+        lead = z3.SubSeq(cshape, 0, rc - rcs) if cond is not None else z3.Empty(IntSeq)
+        kshape = z3.Concat(ss, lead)
+        pre = [rc >= rcs, PROD(kshape) >= 0] if cond is not None else [PROD(kshape) >= 0]
+        rp = dict(kind="c06", vars={})
+        ctx.oblige(f"C06/_get_sample_keys[{cname}]/struct/returns", any(p.outcome == "return" for p in paths), [], props, kind="struct", fn=fnq)
+        for i, p in enumerate(p for p in paths if p.outcome == "return"):
+            v = p.value
+            hyp = pre + p.cond
+            size = z3.If(PROD(kshape) >= 1, PROD(kshape), z3.IntVal(1))
+            ctx.oblige(f"C06/_get_sample_keys[{cname}]/post/one_key_per_output_element#{i}", v.total == size, hyp, props, fn=fnq, replay=rp)
+            ctx.oblige(f"C06/_get_sample_keys[{cname}]/post/key_array_shape#{i}", SymTuple.of(v.shape).s == z3.Concat(kshape, z3.Unit(z3.IntVal(2))) if v.shape is not None else z3.BoolVal(False), hyp, props, fn=fnq, replay=rp)
+            a, b = z3.Ints("a b")
+            ctx.oblige(f"C06/_get_sample_keys[{cname}]/post/distinct_keys_for_distinct_elements#{i}", v.flat_at(a) != v.flat_at(b), hyp + [a >= 0, b >= 0, a < v.total, b < v.total, a != b], props, fn=fnq, replay=rp, inst=[key_facts])
+            ctx.oblige(f"C06/_get_sample_keys[{cname}]/post/all_keys_derive_from_key#{i}", z3.Exists([z3.Int("n!e"), z3.Int("i!e")], v.flat_at(a) == child(key, z3.Int("n!e"), z3.Int("i!e"))), hyp + [a >= 0, a < v.total], props, fn=fnq, replay=rp)
+
+
+@family("distributions/_vectorize", ["C06", "C13"])
+def vectorize_glue(ctx):
+    """core shapes per method, excluded condition for unconditional distributions, per-element shape check"""
+    it = ctx.interp
+    props = ["C06", "C13"]
+    fnq = f"{MOD}.AbstractDistribution._vectorize"
+    cls = it.repo_class(f"{MOD}.AbstractDistribution")
+    rec = {}
+    it.global_overrides[MOD] = {"_get_ufunc_signature": lambda i, o: ("sig", tuple(i), tuple(o))}
+    it.lib.overrides["jax.numpy.vectorize"] = lambda f, signature=None, excluded=frozenset(): rec.update(f=f, signature=signature, excluded=excluded) or ("vectorized", f)
+    it.lib.overrides["functools.wraps"] = lambda m: (lambda g: g)
+
+    class Sig:
+        def __init__(self, names):
+            self.names = names
+
+        def bind(self, *a, **k):
+            class B:
+                arguments = dict(zip(self.names, a))
+            return B()
+
+    it.lib.overrides["inspect.signature"] = lambda m: Sig(m.argnames)
+    S, C = (SV(z3.Int("dim_s0")), SV(z3.Int("dim_s1"))), (SV(z3.Int("dim_c0")),)
+
+    class M:
+        def __init__(self, name, argnames):
+            self.__name__, self.argnames, self.calls = name, argnames, []
+
+        def __call__(self, *a, **k):
+            self.calls.append(a)
+            return "out"
+
+    expect = {"_log_prob": ([S], [()]), "_sample": ([(2,)], [S]), "_sample_and_log_prob": ([(2,)], [S, ()])}
+    for cname, cs in (("conditional", C), ("unconditional", None)):
+        self = Obj(cls, shape=S, cond_shape=cs)
+        for mname, (ins, outs) in expect.items():
+            m = M(mname, ["a0", "condition"])
+            rec.clear()
+            paths = it.explore(lambda: method(cls, "_vectorize")(self, m))
+            p = single(paths, ctx, f"C06/_vectorize[{cname},{mname}]/struct/straight_line", props, fnq)
+            if p is None:
+                continue
+            want_in = list(ins) + ([cs] if cs is not None else [])
+            ok_sig = rec.get("signature") == ("sig", tuple(want_in), tuple(outs))
+            ctx.oblige(f"C06/_vectorize[{cname},{mname}]/post/core_shapes", ok_sig, [], props, kind="struct", fn=fnq, note=f"signature {rec.get('signature')}")
+            ok_ex = rec.get("excluded") == (frozenset() if cs is not None else frozenset([1]))
+            ctx.oblige(f"C06/_vectorize[{cname},{mname}]/post/condition_excluded_iff_unconditional", ok_ex, [], props, kind="struct", fn=fnq)
+            # per-element shape check of the wrapped method
+            wrapped = rec.get("f")
+
+            class A:
+                def __init__(self, shape):
+                    self.shape = shape
+
+            xs = z3.Const("arg_shape", IntSeq)
+            cshape_ = z3.Const("cond_arg_shape", IntSeq)
+            args = (A(SymTuple(xs)), A(SymTuple(cshape_))) if cs is not None else (A(SymTuple(xs)), None)
+            core0 = SymTuple.of(tuple(lift_name(d) for d in want_in[0])).s
+            bad = xs != core0
+            if cs is not None:
+                bad = z3.Or(bad, cshape_ != SymTuple.of(tuple(lift_name(d) for d in cs)).s)
+            if wrapped is None:
+                continue
+            ps = it.explore(lambda: wrapped(*args))
+            for i, q_ in enumerate(ps):
+                if q_.outcome == "raise":
+                    ctx.oblige(f"C13/_vectorize._check_shapes[{cname},{mname}]/post/raises_only_if#{i}", z3.And(bad, z3.BoolVal(q_.value.exc == "ValueError")), q_.cond, props, fn=fnq + "._check_shapes")
+                else:
+                    ctx.oblige(f"C13/_vectorize._check_shapes[{cname},{mname}]/post/accepts_only_matching_trailing_dims#{i}", z3.Not(bad), q_.cond, props, fn=fnq + "._check_shapes")
+
+
+_NAMES = {}
+
+
+def lift_name(d):
+    if isinstance(d, int):
+        return z3.IntVal(d)
+    if isinstance(d, SV):
+        return d.e
+    if d not in _NAMES:
+        _NAMES[d] = z3.Int(f"dim_{d}")
+    return _NAMES[d]
